@@ -1,4 +1,5 @@
 import EupsModel.Model.Str
+import EupsModel.Model.PathAlg
 /-! Model of `Eups.setup` / `Eups.findProductFromVRO` / `Eups.selectVRO` (python/eups/Eups.py) and of
 `Action.execute`, `execute_setupRequired`, `execute_envPrepend`, `execute_envSet`, `execute_addAlias`
 (python/eups/table.py) over a single-stack, single-flavor database.  Shared by C01, C02 and C04.
@@ -304,17 +305,13 @@ def setupProd (db : Db) (e : Env) (n : Name) : Option Decl :=
   | some v => db.lookup (n, v)
   | none => none
 
-/-- `pathUnique` -/
-def uniq : List Elem → List Elem
-  | [] => []
-  | x :: xs => x :: (uniq xs).filter (· ≠ x)
-
-/-- `execute_envPrepend` on the element list of the variable -/
+/-- `execute_envPrepend` on the element list of the variable: C12's list layer (`PathAlg.applyL`: the loop over the
+pieces of the value followed by `pathUnique`) with a one-element value -/
 def Env.addPath (e : Env) (var : Str) (x : Elem) (append : Bool) : Env :=
-  { e with paths := aset e.paths var (uniq (if append then e.pathOf var ++ [x] else x :: e.pathOf var)) }
+  { e with paths := aset e.paths var (PathAlg.applyL append true [x] (e.pathOf var)) }
 
 def Env.removePath (e : Env) (var : Str) (x : Elem) : Env :=
-  { e with paths := aset e.paths var (uniq ((e.pathOf var).filter (· ≠ x))) }
+  { e with paths := aset e.paths var (PathAlg.applyL false false [x] (e.pathOf var)) }
 
 structure St where
   env : Env                          -- `os.environ`: restored when a dependency fails
@@ -378,30 +375,31 @@ def unwind (rec : Rec) (cfg : Cfg) (depth : Nat) (noRec : Bool) (vro : List VroE
   acts rec cfg false depth noRec vro d (d.actions cfg.exact)
     { s with env := { s.env with dirs := aunset s.env.dirs d.name, recs := aunset s.env.recs d.name } }
 
-/-- the setup half of `Eups.setup` once resolution has chosen `d`: register it (rebuilding `alreadySetupProducts`
-at depth 0), skip if already set up, unsetup the set-up version, write the records, run the table -/
+/-- at depth 0 `alreadySetupProducts` is rebuilt from the environment and the chosen product entered -/
+def register (cfg : Cfg) (depth : Nat) (d : Decl) (reason : Option VroEnt) (s : St) : St :=
+  if depth = 0 then { s with already := aset (alreadyOfEnv cfg.db s.env) d.name (d, reason) } else s
+
+/-- `<P>_DIR`, `SETUP_<P>` and the entry in `alreadySetupProducts` -/
+def record (d : Decl) (reason : Option VroEnt) (s : St) : St :=
+  { s with env := { s.env with dirs := aset s.env.dirs d.name (.own d.prod []),
+                               recs := aset s.env.recs d.name d.ver },
+           already := aset s.already d.name (d, reason) }
+
+/-- the setup half of `Eups.setup` once resolution has chosen `d` (and `register` has run): skip if already set
+up, unsetup the set-up version, write the records, run the table -/
 def install (rec : Rec) (cfg : Cfg) (depth : Nat) (noRec : Bool) (vro : List VroEnt) (d : Decl)
     (reason : Option VroEnt) (s : St) : Res :=
-  let s := if depth = 0 then
-      { s with already := aset (alreadyOfEnv cfg.db s.env) d.name (d, reason) } else s
-  let sp := setupProd cfg.db s.env d.name
-  let skip : Bool := match sp with
-    | some sd => (sd.ver == d.ver || sd.dir == d.dir) && decide (depth > 0)
-    | none => false
-  if skip then .ok s
-  else
-    -- unsetupSetupProduct (at the same depth, so that max_depth keeps counting from the request);
-    -- its outcome is not looked at
-    let r1 : Res := match sp with
-      | some _ => rec false depth noRec vro d.name none none s
-      | none => .ok s
-    match r1 with
-    | .fuel => .fuel
-    | .ok s1 | .notFound s1 | .raised s1 =>
-      let env := { s1.env with dirs := aset s1.env.dirs d.name (.own d.prod []),
-                               recs := aset s1.env.recs d.name d.ver }
-      let s2 := { s1 with env := env, already := aset s1.already d.name (d, reason) }
-      acts rec cfg true depth noRec vro d (d.actions cfg.exact) s2
+  match setupProd cfg.db s.env d.name with
+  | none => acts rec cfg true depth noRec vro d (d.actions cfg.exact) (record d reason s)
+  | some sd =>
+    if (sd.ver == d.ver || sd.dir == d.dir) && decide (depth > 0) then .ok s
+    else
+      -- unsetupSetupProduct (at the same depth, so that max_depth keeps counting from the request);
+      -- its outcome is not looked at
+      match rec false depth noRec vro d.name none none s with
+      | .fuel => .fuel
+      | .ok s1 | .notFound s1 | .raised s1 =>
+        acts rec cfg true depth noRec vro d (d.actions cfg.exact) (record d reason s1)
 
 /-- `Eups.setup(productName, versionName, fwd, recursionDepth, noRecursion, versionExpr)` -/
 def setup (cfg : Cfg) : Nat → Rec
@@ -411,7 +409,7 @@ def setup (cfg : Cfg) : Nat → Rec
       match resolve cfg.db cfg.keep s.already name version vexpr depth vro.length vro with
       | .none => .notFound s
       | .error => .raised s
-      | .found d reason => install (setup cfg fuel) cfg depth noRec vro d reason s
+      | .found d reason => install (setup cfg fuel) cfg depth noRec vro d reason (register cfg depth d reason s)
     else
       match setupProd cfg.db s.env name with
       | none => .notFound s
@@ -444,7 +442,7 @@ def runUnsetup (db : Db) (fuel : Nat) (r : Request) (e : Env) : Res :=
 /-- C02's equality of environments: path variables as duplicate-free lists, lookups otherwise -/
 def Env.approx (a b : Env) : Prop :=
   (∀ n, a.rec? n = b.rec? n) ∧ (∀ n, aget a.dirs n = aget b.dirs n) ∧
-  (∀ var, uniq (a.pathOf var) = uniq (b.pathOf var)) ∧ (∀ var, aget a.vars var = aget b.vars var)
+  (∀ var, PathAlg.uniq (a.pathOf var) = PathAlg.uniq (b.pathOf var)) ∧ (∀ var, aget a.vars var = aget b.vars var)
 
 /-! ## what `eups.app.setup` hands to the shell -/
 
